@@ -211,6 +211,26 @@ func dotReplay(in io.Reader, raw bool, args []string) (*Summary, error) {
 		if msg := dotDocCheck(doc2, adj, label); msg != "" {
 			sum.viol("Dot-attrs", c, "%s; document:\n%s", msg, doc2)
 		}
+		// the ordinary character as a percent sign followed by a letter (text that a formatting routine would read as a
+		// verb): names, labels, node and edge attributes are data, never format strings
+		if strings.Contains(s, "a") {
+			pc := func(t string) string { return strings.ReplaceAll(t, "a", "%d%") }
+			label3 := func(i int) string { return pc(label(i)) }
+			doc3 := graphout.Dot{Name: pc(s), Label: func(int) string { return "x" },
+				NodeAttrs: func(i int) []graphout.DotAttr {
+					return []graphout.DotAttr{{Name: "tooltip", Val: pc(s)}, {Name: "label", Val: label3(i)}}
+				},
+				EdgeAttrs: func(i, j int) []graphout.DotAttr {
+					return []graphout.DotAttr{{Name: "label", Val: pc(s)}, {Name: "weight", Val: j}}
+				},
+			}.Sprint(graph.IntGraph(adj))
+			sum.Checks++
+			if msg := dotDocCheck(doc3, adj, label3); msg != "" {
+				sum.viol("Dot-attrs", c, "%s; document:\n%s", msg, doc3)
+			} else if !strings.Contains(doc3, "label="+graphout.DotString(pc(s))) || strings.Contains(doc3, "MISSING") || strings.Contains(doc3, "%!") {
+				sum.viol("Dot-attrs", c, "an attribute value %q does not appear quoted as %s; document:\n%s", pc(s), graphout.DotString(pc(s)), doc3)
+			}
+		}
 		// attribute slices handed out as prefixes of one shared table (spare capacity behind them), without a label
 		// attribute so that the default label is added: the table must stay as it was, the document must be the same
 		// when printed again, and every node must carry its own label
